@@ -658,7 +658,8 @@ def init {σ : Type} (src : σ) (windowBits resetInterval inputBufferSize output
       Array.replicate cleared 0 ++ Array.replicate (dim - cleared) fill
     some {
       src := src, offset := 0, length := outputLength,
-      window := Array.replicate (2 ^ windowBits) fill, windowSize := 2 ^ windowBits,
+      window := Array.replicate (2 ^ windowBits) 0,   -- `memset(lzx->window, 0, window_size)` (since cc98207)
+      windowSize := 2 ^ windowBits,
       refDataSize := 0, numOffsets := slots * 8, windowPosn := 0, framePosn := 0, frame := 0,
       resetInterval := resetInterval, r0 := 1, r1 := 1, r2 := 1,
       blockLength := fill.toNat * 16843009,       -- never written by lzxd_init
